@@ -282,6 +282,7 @@ struct Rw<'s> {
     used_loops: BTreeSet<usize>,
     used_selects: BTreeSet<usize>,
     used_closures: BTreeSet<usize>,
+    swallowed: Vec<(usize, String)>,
     anchor_hits: HashMap<usize, usize>, // index into f.anchors -> matches seen
     anchor_done: BTreeSet<usize>,
     self_as: Option<String>,
@@ -930,7 +931,11 @@ impl<'s> Rw<'s> {
                     skel.push_str(&self.src.text[cb..b]);
                 }
                 if squash(&skel) == squash(&site.skeleton) {
-                    let _ = &covered;
+                    for ci in &covered {
+                        if let Some((_, (x, y))) = self.f.closure_spans.iter().find(|(i, _)| i == ci) {
+                            self.swallowed.push((*ci, self.src.text[*x..*y].to_string()));
+                        }
+                    }
                     self.used_closures.insert(k);
                     let becomes = site.becomes.clone();
                     self.edit(a, b, &becomes, "R13", &format!("closure #{} site `{}` at {}", k, norm(&site.skeleton), self.loc(sp)));
@@ -1022,6 +1027,9 @@ struct Emitted {
     src_hi_line: usize,
     original: String,
     arms: Vec<(usize, usize, String)>,
+    /// closures consumed as holes of a `//@closure` site: (host-level index, source text)
+    swallowed: Vec<(usize, String)>,
+    degraded: Option<String>,
 }
 
 fn line_map(src: &SrcFile, ap: &Applied) -> Vec<Option<usize>> {
@@ -1057,6 +1065,15 @@ fn compute_threaded(unit: &Unit, srcs: &HashMap<String, SrcFile>) -> R<BTreeSet<
     for s in &g.seeds {
         threaded.insert(s.clone());
     }
+    // a function whose contract speaks about the ghost state takes it, whatever its body calls (needed when the body
+    // is not extracted: function-level degradation)
+    let mut contract_mentions: BTreeSet<String> = BTreeSet::new();
+    for f in unit.fns() {
+        let c = squash(&f.contract);
+        if c.contains(&format!("old({})", g.param)) || c.contains(&format!("final({})", g.param)) {
+            contract_mentions.insert(f.out_name());
+        }
+    }
     // calls per extracted fn
     let mut calls: Vec<(String, bool, BTreeSet<String>)> = vec![];
     let empty = BTreeSet::new();
@@ -1079,6 +1096,7 @@ fn compute_threaded(unit: &Unit, srcs: &HashMap<String, SrcFile>) -> R<BTreeSet<
             used_loops: BTreeSet::new(),
             used_selects: BTreeSet::new(),
             used_closures: BTreeSet::new(),
+            swallowed: vec![],
             anchor_hits: HashMap::new(),
             anchor_done: BTreeSet::new(),
             self_as: None,
@@ -1138,7 +1156,7 @@ fn compute_threaded(unit: &Unit, srcs: &HashMap<String, SrcFile>) -> R<BTreeSet<
                 Some(ty) if !*is_method => format!("fn:{}::{}", ty, name),
                 _ => key,
             };
-            if !threaded.contains(&key) && cs.iter().any(|c| hits(&threaded, c)) && !g.never.contains(name) {
+            if !threaded.contains(&key) && (cs.iter().any(|c| hits(&threaded, c)) || contract_mentions.contains(name)) && !g.never.contains(name) {
                 threaded.insert(key);
                 changed = true;
             }
@@ -1199,6 +1217,9 @@ fn emit_fn(unit: &Unit, src: &SrcFile, f: &FnSpec, threaded: &BTreeSet<String>) 
         let hits: Vec<usize> = text[lo..].match_indices(rp.old.as_str()).map(|(i, _)| lo + i).filter(|i| *i < hi + 4096).collect();
         let hits: Vec<usize> = hits.into_iter().filter(|i| *i >= lo).collect();
         if hits.is_empty() {
+            if f.degrade.is_some() {
+                continue;
+            }
             refuse!("anchor lost: //@replace text `{}` not found in `{}` ({})", rp.old, f.path, src.rel);
         }
         if rp.old.matches('\n').count() != rp.new.matches('\n').count() {
@@ -1237,7 +1258,7 @@ fn emit_fn_inner(unit: &Unit, src: &SrcFile, f: &FnSpec, threaded: &BTreeSet<Str
         let text = src.text[lo..hi].to_string();
         let n = text.matches('\n').count() + 1;
         let l0 = src.line_of(lo);
-        return Ok(Emitted { text: text.clone(), line_src: (0..n).map(|i| Some(l0 + i)).collect(), rules: vec![], src_lo_line: l0, src_hi_line: src.line_of(hi - 1), original: text, arms: vec![] });
+        return Ok(Emitted { text: text.clone(), line_src: (0..n).map(|i| Some(l0 + i)).collect(), rules: vec![], src_lo_line: l0, src_hi_line: src.line_of(hi - 1), original: text, arms: vec![], swallowed: vec![], degraded: None });
     }
     let (fpath, ck) = split_closure_path(&f.path);
     let segs: Vec<&str> = fpath.split("::").collect();
@@ -1251,6 +1272,9 @@ fn emit_fn_inner(unit: &Unit, src: &SrcFile, f: &FnSpec, threaded: &BTreeSet<Str
     let closures = collect_closures(block);
     fspec.closure_spans = closures.iter().enumerate().map(|(i, c)| (i, br(c.span()))).collect();
     for s in &f.closure_sites {
+        if f.degrade.is_some() {
+            break;
+        }
         if s.index >= closures.len() {
             refuse!("anchor lost: closure #{} of `{}` does not exist ({} closures)", s.index, f.path, closures.len());
         }
@@ -1293,6 +1317,7 @@ fn emit_fn_inner(unit: &Unit, src: &SrcFile, f: &FnSpec, threaded: &BTreeSet<Str
         used_loops: BTreeSet::new(),
         used_selects: BTreeSet::new(),
         used_closures: BTreeSet::new(),
+            swallowed: vec![],
         anchor_hits: HashMap::new(),
         anchor_done: BTreeSet::new(),
         self_as: f.self_as.clone(),
@@ -1310,6 +1335,7 @@ fn emit_fn_inner(unit: &Unit, src: &SrcFile, f: &FnSpec, threaded: &BTreeSet<Str
     let ghost_param = unit.ghost.as_ref().map(|g| format!("Tracked({}): Tracked<&mut {}>", g.param, g.ty));
 
     let (lo, hi, header, body_lo);
+    let mut sig_end: usize = 0;
     match ck {
         None => {
             // ---- signature ----
@@ -1377,10 +1403,13 @@ fn emit_fn_inner(unit: &Unit, src: &SrcFile, f: &FnSpec, threaded: &BTreeSet<Str
             }
             let (ba, bb) = br(block.brace_token.span.open());
             let contract = if f.contract.trim().is_empty() { String::new() } else { format!("\n{}\n", f.contract.trim_end()) };
+            let contract = if f.degrade.is_some() { contract.replace("/*[", "/*degraded-[") } else { contract };
             rw.edit(ba, ba, &contract, "INJ", "contract");
+            sig_end = ba;
             if f.stub {
                 let (_, be) = br(block.span());
-                rw.edit(ba, be, "{ unimplemented!() }", "ASSUMED", &format!("body of {} not verified here: signature + contract only", name));
+                let (rule, note) = if let Some(why) = &f.degrade { ("DEGRADED", format!("body of {} not extracted: {}", name, why)) } else { ("ASSUMED", format!("body of {} not verified here: signature + contract only", name)) };
+                rw.edit(ba, be, "{ unimplemented!() }", rule, &note);
             } else {
                 let mut pre = if f.pre.trim().is_empty() { String::new() } else { format!("\n{}\n", f.pre.trim_end()) };
                 if vacuity() {
@@ -1397,6 +1426,25 @@ fn emit_fn_inner(unit: &Unit, src: &SrcFile, f: &FnSpec, threaded: &BTreeSet<Str
         }
         Some(k) => {
             // ---- outlined closure (R13) ----
+            if closures.get(k).is_none() && f.degrade.is_some() {
+                // the closure no longer exists: the degraded stub comes from the spec alone
+                let (wa, _) = br(whole);
+                let mut params = f.params.clone().unwrap_or_default();
+                if is_threaded {
+                    if let Some(gp) = &ghost_param {
+                        params = if params.trim().is_empty() { gp.clone() } else { format!("{}, {}", params, gp) };
+                    }
+                }
+                let ret = match (&f.ret_ty, &f.ret) {
+                    (Some(t), Some(r)) => format!(" -> ({}: {})", r, t),
+                    (Some(t), None) => format!(" -> {}", t),
+                    _ => String::new(),
+                };
+                let contract = if f.contract.trim().is_empty() { String::new() } else { format!("\n{}\n", f.contract.trim_end()) }.replace("/*[", "/*degraded-[");
+                let text = format!("fn {}({}){}{}{{ unimplemented!() }}", name, params, ret, contract);
+                let n = text.matches('\n').count() + 1;
+                return Ok(Emitted { text, line_src: vec![None; n], rules: vec![Edit { start: wa, end: wa, text: String::new(), rule: "DEGRADED".into(), note: format!("closure #{} of {} no longer exists", k, fpath), seq: 0 }], src_lo_line: src.line_of(wa), src_hi_line: src.line_of(wa), original: String::new(), arms: vec![], swallowed: vec![], degraded: f.degrade.clone() });
+            }
             let Some(c) = closures.get(k) else {
                 refuse!("anchor lost: closure #{} of `{}` not found ({} closures)", k, fpath, closures.len());
             };
@@ -1423,6 +1471,9 @@ fn emit_fn_inner(unit: &Unit, src: &SrcFile, f: &FnSpec, threaded: &BTreeSet<Str
                     lo = x;
                     hi = y;
                     let (_, bb) = br(b.brace_token.span.open());
+                    if f.degrade.is_some() {
+                        rw.edit(x, y, "{ unimplemented!() }", "DEGRADED", "body not extracted");
+                    }
                     let mut pre = if f.pre.trim().is_empty() { String::new() } else { format!("\n{}\n", f.pre.trim_end()) };
                     if vacuity() {
                         pre.push_str(&new_probe(format!("{}: entry of the outlined closure ({})", f.path, src.rel)));
@@ -1430,15 +1481,21 @@ fn emit_fn_inner(unit: &Unit, src: &SrcFile, f: &FnSpec, threaded: &BTreeSet<Str
                     if !rebind.is_empty() {
                         pre.push_str(&format!("\n{}", rebind));
                     }
-                    rw.edit(bb, bb, &pre, "INJ", "body prologue");
-                    rw.visit_block(b);
+                    if f.degrade.is_none() {
+                        rw.edit(bb, bb, &pre, "INJ", "body prologue");
+                        rw.visit_block(b);
+                    }
                     is_block = true;
                 }
                 Body::Expr(e) => {
                     let (x, y) = br(e.span());
                     lo = x;
                     hi = y;
-                    rw.visit_expr(e);
+                    if f.degrade.is_some() {
+                        rw.edit(x, y, "unimplemented!()", "DEGRADED", "body not extracted");
+                    } else {
+                        rw.visit_expr(e);
+                    }
                     is_block = false;
                 }
             }
@@ -1458,6 +1515,7 @@ fn emit_fn_inner(unit: &Unit, src: &SrcFile, f: &FnSpec, threaded: &BTreeSet<Str
                 _ => String::new(),
             };
             let contract = if f.contract.trim().is_empty() { String::new() } else { format!("\n{}\n", f.contract.trim_end()) };
+            let contract = if f.degrade.is_some() { contract.replace("/*[", "/*degraded-[") } else { contract };
             let mut h = format!("fn {}({}){}{}", name, params, ret, contract);
             if !is_block {
                 let mut pre = if f.pre.trim().is_empty() { String::new() } else { format!("{}\n", f.pre.trim_end()) };
@@ -1466,6 +1524,9 @@ fn emit_fn_inner(unit: &Unit, src: &SrcFile, f: &FnSpec, threaded: &BTreeSet<Str
                     pre.push('\n');
                 }
                 pre.push_str(&rebind);
+                if f.degrade.is_some() {
+                    pre.clear();
+                }
                 h.push_str(&format!("{{\n{}", pre));
             }
             header = h;
@@ -1480,7 +1541,15 @@ fn emit_fn_inner(unit: &Unit, src: &SrcFile, f: &FnSpec, threaded: &BTreeSet<Str
         let hay = &src.text[lo..hi];
         let hits: Vec<usize> = hay.match_indices(rp.old.as_str()).map(|(i, _)| i).collect();
         if hits.is_empty() {
+            if f.degrade.is_some() {
+                continue;
+            }
             refuse!("anchor lost: //@replace text `{}` not found in `{}` ({})", rp.old, f.path, src.rel);
+        }
+        // degraded: only the signature is kept, so only replacements inside it apply
+        let hits: Vec<usize> = if f.degrade.is_some() { hits.into_iter().filter(|h| lo + h < sig_end).collect() } else { hits };
+        if hits.is_empty() {
+            continue;
         }
         if hits.len() > 1 && !rp.all {
             refuse!("//@replace text `{}` is ambiguous in `{}` ({} hits)", rp.old, f.path, hits.len());
@@ -1493,7 +1562,7 @@ fn emit_fn_inner(unit: &Unit, src: &SrcFile, f: &FnSpec, threaded: &BTreeSet<Str
     if let Some(e) = rw.err.take() {
         refuse!("{} [fn {}]", e, f.path);
     }
-    let check_anchors = !f.stub;
+    let check_anchors = !f.stub && f.degrade.is_none();
     for l in &f.loops {
         if check_anchors && !rw.used_loops.contains(&l.index) {
             refuse!("anchor lost: loop #{} of `{}` not found ({} loops)", l.index, f.path, rw.loop_no);
@@ -1515,6 +1584,7 @@ fn emit_fn_inner(unit: &Unit, src: &SrcFile, f: &FnSpec, threaded: &BTreeSet<Str
         }
     }
     let arms = rw.arms.clone();
+    let swallowed = rw.swallowed.clone();
     let mut edits = rw.edits;
     let ap = apply_edits(&src.text, lo, hi, &mut edits)?;
     let mut lm = line_map(src, &ap);
@@ -1539,7 +1609,38 @@ fn emit_fn_inner(unit: &Unit, src: &SrcFile, f: &FnSpec, threaded: &BTreeSet<Str
         src_hi_line: src.line_of(hi.saturating_sub(1)),
         original: src.text[lo..hi].to_string(),
         arms,
+        swallowed,
+        degraded: f.degrade.clone(),
     })
+}
+
+/// function-level degradation: signature + contract (tags neutralised) + external body
+fn emit_degraded(unit: &Unit, src: &SrcFile, f: &FnSpec, threaded: &BTreeSet<String>, why: &str) -> R<Emitted> {
+    let mut fd = f.clone();
+    fd.degrade = Some(why.to_string());
+    fd.stub = true;
+    fd.split_arms = false;
+    fd.kill_arms.clear();
+    let vac = vacuity();
+    VACUITY.store(false, std::sync::atomic::Ordering::Relaxed);
+    let em = emit_fn(unit, src, &fd, threaded);
+    VACUITY.store(vac, std::sync::atomic::Ordering::Relaxed);
+    em.map_err(|Refuse(e)| Refuse(format!("{} (and the function cannot be degraded to its contract: {})", why, e)))
+}
+
+/// would the case-split extraction of `f` be refused?  (dry run without vacuity probes)
+fn split_fails(unit: &Unit, src: &SrcFile, f: &FnSpec, threaded: &BTreeSet<String>) -> Option<String> {
+    if f.selects.len() != 1 {
+        return None;
+    }
+    let vac = vacuity();
+    VACUITY.store(false, std::sync::atomic::Ordering::Relaxed);
+    let r = emit_fn(unit, src, f, threaded);
+    VACUITY.store(vac, std::sync::atomic::Ordering::Relaxed);
+    match r {
+        Ok(_) => None,
+        Err(Refuse(e)) => Some(e),
+    }
 }
 
 fn emit_item(unit: &Unit, src: &SrcFile, it: &ItemSpec) -> R<Emitted> {
@@ -1581,6 +1682,7 @@ fn emit_item(unit: &Unit, src: &SrcFile, it: &ItemSpec) -> R<Emitted> {
         used_loops: BTreeSet::new(),
         used_selects: BTreeSet::new(),
         used_closures: BTreeSet::new(),
+            swallowed: vec![],
         anchor_hits: HashMap::new(),
         anchor_done: BTreeSet::new(),
         self_as: None,
@@ -1691,7 +1793,7 @@ fn emit_item(unit: &Unit, src: &SrcFile, it: &ItemSpec) -> R<Emitted> {
     let mut edits = rw.edits;
     let ap = apply_edits(&src.text, lo, hi, &mut edits)?;
     let lm = line_map(src, &ap);
-    Ok(Emitted { text: ap.text, line_src: lm, rules: edits, src_lo_line: src.line_of(lo), src_hi_line: src.line_of(hi - 1), original: src.text[lo..hi].to_string(), arms: vec![] })
+    Ok(Emitted { text: ap.text, line_src: lm, rules: edits, src_lo_line: src.line_of(lo), src_hi_line: src.line_of(hi - 1), original: src.text[lo..hi].to_string(), arms: vec![], swallowed: vec![], degraded: None })
 }
 
 // ---------------------------------------------------------------------------
@@ -1714,6 +1816,8 @@ fn run() -> R<()> {
     let mut specp = String::new();
     let mut out = String::new();
     let mut prelude = "/verif/prelude".to_string();
+    let mut no_degrade = false;
+    let mut force_degrade: Vec<(String, String)> = vec![];
     let mut i = 1;
     while i < args.len() {
         match args[i].as_str() {
@@ -1734,6 +1838,18 @@ fn run() -> R<()> {
                 i += 1
             }
             "--vacuity" => VACUITY.store(true, std::sync::atomic::Ordering::Relaxed),
+            "--no-degrade" => no_degrade = true,
+            "--degrade" => {
+                // NAME=reason;NAME=reason
+                if i + 1 < args.len() {
+                    for part in args[i + 1].split(";;") {
+                        if let Some((n, w)) = part.split_once("=") {
+                            force_degrade.push((n.to_string(), w.to_string()));
+                        }
+                    }
+                    i += 1;
+                }
+            }
             x => refuse!("unknown arg {}", x),
         }
         i += 1;
@@ -1797,6 +1913,11 @@ fn run() -> R<()> {
                 // (emitted text, file, source name, kind, output name, case-split label)
                 let mut outs: Vec<(Emitted, String, String, &str, String, Option<String>)> = vec![];
                 match p {
+                    Part::Fn(f) if f.split_arms && (force_degrade.iter().any(|(n, _)| *n == f.path) || (!no_degrade && split_fails(&unit, &srcs[&f.file], f, &threaded).is_some())) => {
+                        let why = force_degrade.iter().find(|(n, _)| *n == f.path).map(|(_, w)| w.clone()).or_else(|| split_fails(&unit, &srcs[&f.file], f, &threaded)).unwrap_or_default();
+                        let em = emit_degraded(&unit, &srcs[&f.file], f, &threaded, &why)?;
+                        outs.push((em, f.file.clone(), f.path.clone(), "fn", f.out_name(), None));
+                    }
                     Part::Fn(f) if f.split_arms => {
                         if f.selects.len() != 1 {
                             refuse!("//@split-arms on `{}` needs exactly one select! (the split is only sound over mutually exclusive arms)", f.path);
@@ -1838,7 +1959,21 @@ fn run() -> R<()> {
                             outs.push((em, f.file.clone(), f.path.clone(), "fn", f.out_name(), Some("callers' view (contract only; proved by the copies above)".to_string())));
                         }
                     }
-                    Part::Fn(f) => outs.push((emit_fn(&unit, &srcs[&f.file], f, &threaded)?, f.file.clone(), f.path.clone(), "fn", f.out_name(), None)),
+                    Part::Fn(f) => {
+                        let forced = force_degrade.iter().find(|(n, _)| *n == f.path).map(|(_, w)| w.clone());
+                        let probes_before = PROBES.with(|p| p.borrow().len());
+                        let first = if forced.is_some() && !f.stub && !f.verbatim { Err(Refuse(forced.clone().unwrap())) } else { emit_fn(&unit, &srcs[&f.file], f, &threaded) };
+                        match first {
+                            Ok(em) => outs.push((em, f.file.clone(), f.path.clone(), "fn", f.out_name(), None)),
+                            Err(Refuse(why)) if !f.stub && !f.verbatim && !no_degrade => {
+                                // probes allocated by the abandoned attempt are not in the text
+                                PROBES.with(|p| p.borrow_mut().truncate(probes_before));
+                                let em = emit_degraded(&unit, &srcs[&f.file], f, &threaded, &why)?;
+                                outs.push((em, f.file.clone(), f.path.clone(), "fn", f.out_name(), None));
+                            }
+                            Err(e) => return Err(e),
+                        }
+                    }
                     Part::Item(it) => outs.push((emit_item(&unit, &srcs[&it.file], it)?, it.file.clone(), it.name.clone(), "item", it.rename.clone().unwrap_or(it.name.clone()), None)),
                     _ => unreachable!(),
                 };
@@ -1852,7 +1987,12 @@ fn run() -> R<()> {
                     let mut extra = if split.is_some() { 1 } else { 0 };
                     if let Part::Fn(f) = p {
                         let stub_attr = vec!["#[verifier::external_body]".to_string()];
-                        let attrs = if split.as_deref().map(|l| l.starts_with("callers' view")).unwrap_or(false) { &stub_attr } else { &f.attrs };
+                        let attrs = if em.degraded.is_some() || split.as_deref().map(|l| l.starts_with("callers' view")).unwrap_or(false) { &stub_attr } else { &f.attrs };
+                        if let Some(why) = &em.degraded {
+                            text.push_str(&format!("// DEGRADED (not extracted, contract only, tags neutralised): {}\n", why.replace('\n', " ")));
+                            line_src.push(None);
+                            extra += 1;
+                        }
                         for a in attrs {
                             text.push_str(a);
                             text.push('\n');
@@ -1880,10 +2020,27 @@ fn run() -> R<()> {
                     items_json.push(serde_json::json!({
                         "kind": kind, "name": name, "out_name": out_name, "file": file,
                         "src_lines": [em.src_lo_line, em.src_hi_line], "unit_lines": [start_line, end_line],
-                        "src_fingerprint": sha(&em.original), "rules": rids,
+                        "src_fingerprint": sha(&em.original), "rules": rids, "degraded": em.degraded,
                         "threaded": threaded.contains(&out_name) || split.is_some() && threaded.contains(name.rsplit("::").next().unwrap()),
                         "split_arm": split,
                     }));
+                    // closures consumed as holes of a site directive and not outlined by any //@fn of this unit: their
+                    // text is outside every contract, so it is fingerprinted like an assumed function's body
+                    if split.is_none() || split.as_deref().map(|l| l.starts_with("callers' view")).unwrap_or(false) {
+                        let host = name.split('#').next().unwrap_or(&name).to_string();
+                        for (ci, ctext) in &em.swallowed {
+                            let cname = format!("{}#closure{}", host, ci);
+                            let outlined = unit.parts.iter().any(|q| matches!(q, Part::Fn(g) if g.path == cname && g.file == file));
+                            if !outlined && !items_json.iter().any(|j| j["name"] == cname.as_str()) {
+                                items_json.push(serde_json::json!({
+                                    "kind": "fn", "name": cname, "out_name": "", "file": file,
+                                    "src_lines": [em.src_lo_line, em.src_hi_line], "unit_lines": [0, 0],
+                                    "src_fingerprint": sha(ctext), "rules": ["ASSUMED", "R13"], "threaded": false, "split_arm": serde_json::Value::Null,
+                                }));
+                                let _ = writeln!(fidelity, "=== closure {} ({}) fingerprint {}: consumed by a site directive, not outlined: its text is assumed (fingerprint guard)\n--- original\n{}\n", cname, file, sha(ctext), ctext);
+                            }
+                        }
+                    }
                     let _ = writeln!(fidelity, "=== {} {} ({}:{}-{}) fingerprint {} -> unit.rs:{}-{}{}", kind, name, file, em.src_lo_line, em.src_hi_line, sha(&em.original), start_line, end_line, split.as_ref().map(|l| format!(" [case-split copy, live arm: {}]", l)).unwrap_or_default());
                     for e in &em.rules {
                         let _ = writeln!(fidelity, "  [{}] {}:{} {}", e.rule, file, srcs[&file].line_of(e.start), e.note);
